@@ -233,6 +233,10 @@ func (vt *Model) cnl(ps int) {
 	if ps == 0 {
 		ps = 1
 	}
+	if ps > vt.height() {
+		// Moving further than the height of the screen changes nothing
+		ps = vt.height()
+	}
 	for i := 0; i < ps; i += 1 {
 		vt.nel()
 	}
@@ -244,6 +248,9 @@ func (vt *Model) cpl(ps int) {
 	vt.lastCol = false
 	if ps == 0 {
 		ps = 1
+	}
+	if ps > vt.height() {
+		ps = vt.height()
 	}
 	for i := 0; i < ps; i += 1 {
 		vt.ri()
